@@ -484,12 +484,15 @@ func (t *Collection) VisitItemsRandom(
 	if (lenBlock < 1) || (numBlocks < 1) {
 		return fmt.Errorf("impossible block sizes,%d,%d", lenBlock, numBlocks)
 	}
+	// The block start keys are copies: the items they come from are
+	// released (evicted) as the visits move on, and an application that
+	// recycles released items (see tools/slab) reuses their key buffers.
 	blockStore := make([][]byte, 0, numBlocks)
 
 	var j int
 	v := func(i *Item, depth uint64) bool {
 		if j == 0 {
-			blockStore = append(blockStore, i.Key)
+			blockStore = append(blockStore, append([]byte(nil), i.Key...))
 			j = 1
 		} else if j >= lenBlock {
 			j = 0
@@ -529,7 +532,7 @@ func (t *Collection) VisitItemsRandom(
 					return visitor(itm, depth)
 				}
 				first = true
-				blockStore[i] = itm.Key
+				blockStore[i] = append(blockStore[i][:0], itm.Key...)
 				advanced = true
 				return false
 			}
@@ -566,7 +569,7 @@ func (t *Collection) VisitItemsAscendBlockEx(
 	var j int
 	v := func(i *Item, depth uint64) bool {
 		if j == 0 {
-			blockStore = append(blockStore, i.Key)
+			blockStore = append(blockStore, append([]byte(nil), i.Key...))
 			j = 1
 		} else if j >= lenBlock {
 			j = 0
